@@ -50,6 +50,13 @@ Fixpoint run_tree (fuel : nat) (l : list Z) : M (list Z * list Z) :=
       | 0 :: l' => let* b := are_enabled in ret ([b2z b], l')
       | 1 :: k :: l' =>
           without_interrupts (run_seq fuel' (Z.to_nat k) l')
+      (* 2 k = a closure that opens an interrupt window around its k children and closes it
+         again: it leaves the flag as it found it *)
+      | 2 :: k :: l' =>
+          let* was := are_enabled in
+          let* _ := int_enable in
+          let* r := run_seq fuel' (Z.to_nat k) l' in
+          if was then ret r else (let* _ := int_disable in ret r)
       | _ => ret ([], [])
       end
   end
